@@ -24,6 +24,8 @@ import DiskfsModel.Proofs.FatRange
 import DiskfsModel.Proofs.SqfsRange
 import DiskfsModel.Proofs.IsoWrites
 import DiskfsModel.Generated.Fat
+import DiskfsModel.Proofs.Ext4Range
+import DiskfsModel.Proofs.Ext4RangeFile
 namespace Diskfs.Ranges.C03
 
 /-- frame, stated for a half-open range -/
@@ -400,5 +402,125 @@ example : ∀ w ∈ isoI.writesGo.map (subWrite 1048576), 1048576 ≤ w.off ∧ 
   exact this
 example : (isoI.writesGo.map (subWrite 1048576)).map (·.off) =
     [1048576, 1085440, 1087488, 1089536, 1091584, 1091587, 1081344, 1083392] := by decide
+
+end Diskfs.Ranges.C03
+
+/-! ## ext4 clause: layout, allocator and every history of the volume machine stay inside [start, start + size) -/
+namespace Diskfs.Ranges.C03
+open Diskfs.Ext4 Diskfs.Ext4.Mkfs Diskfs.Ext4.Alloc Diskfs.Ranges.Ext4
+
+/-- **ext4 layout**: for every parameter set Create accepts (`mkLayout`), when the metadata of every (flex)
+    group fits behind its owner (`Fits`) and every superblock / descriptor-table copy fits into its group
+    (`BackupsFit`) — neither is checked by Create: the recorded findings ext4-create-flex-meta-overflow and
+    ext4-backup-gdt-past-end are exactly their negations, see below — every structure the layout places
+    (boot area, superblock and GDT copies, reserved GDT blocks, block bitmaps, inode bitmaps, inode tables,
+    every inode slot of every inode number ≤ inodeCount) and every run of blocks below the block count lies
+    inside [0, numBlocks × blockSize) ⊆ [0, size). -/
+theorem ext4_layout_inside (p : Params) (l : Layout) (h : mkLayout p = .ok l) (hfit : Fits l p.flex) (hb : BackupsFit l)
+    (owned : List Nat) (hown : ∀ b ∈ owned, b < l.numBlocks) (ev : Ev) (hok : EvOk l owned ev) :
+    (evRegion l p.flex ev).off + (evRegion l p.flex ev).len ≤ l.numBlocks * l.bs ∧ l.numBlocks * l.bs ≤ p.size :=
+  ⟨evOk_inside l p.flex owned (lwf_of_mkLayout p l h).1 hfit hb hown ev hok, (lwf_of_mkLayout p l h).2⟩
+
+/-- **ext4 allocator**: whatever blocks allocateExtents answers with (fast path, slow path, any policy: the
+    machine accepts exactly the answers whose runs are free in the bitmaps, `runsOK`), on bitmaps that are no
+    longer than their group (`LenInv`: the short last group has a short bitmap — in the code the padding bits
+    behind it are set), every block handed out is below the block count and every run lies inside one group. -/
+theorem ext4_alloc_below (l : Layout) (s : Acc) (n : Nat) (runs : List Run) (s' : Acc) (hi : LenInv l s)
+    (h : allocExtents s n (some runs) = .ok s') :
+    (∀ r ∈ runs, r.1 < l.groups) ∧ (∀ b ∈ runs.flatMap (runBlocks (geoOf l)), b < l.numBlocks) ∧ LenInv l s' := by
+  have hok : runsOK s runs = true := by
+    cases hro : runsOK s runs with
+    | true => rfl
+    | false => exfalso; simp [allocExtents, hro] at h
+  have hs : shape s' = shape s := by
+    have := shape_allocExtents s n (some runs)
+    rw [h] at this; exact this
+  exact ⟨(runs_below l runs s hi hok).1, (runs_below l runs s hi hok).2, lenInv_of_shape l s s' hs hi⟩
+
+/-- **ext4, every history**: a volume created with parameters Create accepts, with `Fits` and `BackupsFit`;
+    any state satisfying the invariant `RInv` (bitmaps no longer than their groups, every owned block below the
+    block count, every file's inode number ≤ inodeCount — `ext4_fresh_inv`: the state Create leaves has it);
+    any sequence of calls of the volume machine (allocateInode + writeInode, allocateExtents answers of any
+    policy, Remove, WriteAts into runs of blocks the file owns — file data, directory blocks, extent nodes —,
+    inode write-backs), accepted or refused.  Then every WriteAt of Create and of the history, shifted by the
+    SubStorage window to `start`, lies inside [start, start + size): no byte outside changes whatever the
+    device held. -/
+theorem ext4_history_in_range (p : Params) (l : Layout) (h : mkLayout p = .ok l) (hfit : Fits l p.flex) (hb : BackupsFit l)
+    (o : Own) (hi : RInv l o) (ops : List VOp) (start : Nat) (d : Dev) (ws : List Wr)
+    (hws : ws.map (fun w => (⟨w.off, w.data.length⟩ : Region)) = (createEvs l ++ (vrun l o ops).2).map (evRegion l p.flex)) :
+    RInv l (vrun l o ops).1 ∧
+    (∀ w ∈ ws.map (subWrite start), start ≤ w.off ∧ w.off + w.data.length ≤ start + p.size) ∧
+    ∀ i, i < start ∨ start + p.size ≤ i → applyWrs d (ws.map (subWrite start)) i = d i := by
+  obtain ⟨hw, hsz⟩ := lwf_of_mkLayout p l h
+  obtain ⟨hinv, hin⟩ := vrun_inside l p.flex hw hfit hb ops o hi
+  have hall : ∀ w ∈ ws.map (subWrite start), start ≤ w.off ∧ w.off + w.data.length ≤ start + p.size := by
+    intro w hw'
+    obtain ⟨u, hu, rfl⟩ := List.mem_map.1 hw'
+    have hr : (⟨u.off, u.data.length⟩ : Region) ∈ (createEvs l ++ (vrun l o ops).2).map (evRegion l p.flex) := by
+      rw [← hws]; exact List.mem_map.2 ⟨u, hu, rfl⟩
+    obtain ⟨ev, hev, hreg⟩ := List.mem_map.1 hr
+    have hle : (evRegion l p.flex ev).off + (evRegion l p.flex ev).len ≤ l.numBlocks * l.bs := by
+      rcases List.mem_append.1 hev with h1 | h1
+      · exact evOk_inside l p.flex [] hw hfit hb (by simp) ev (createEvs_ok l [] ev h1)
+      · exact hin ev h1
+    rw [hreg] at hle
+    simp only [subWrite] at hle ⊢
+    omega
+  refine ⟨hinv, hall, fun i hi' => applyWrs_frame d _ i ?_⟩
+  intro w hw'
+  have := hall w hw'
+  omega
+
+/-- the state initGroupDescriptorTables leaves satisfies the invariant, for every layout -/
+theorem ext4_fresh_inv (l : Layout) (flex : Bool) : RInv l (freshOwn l flex) := fresh_rinv l flex
+
+/-- **File.Write** (the repaired loop of Model/Ext4/FileIO.lean) on an extent list that holds the transfer:
+    every WriteAt lies inside one extent of the file; so when the file's extents are blocks below the block
+    count (what `RInv` says of every owned block), every WriteAt ends at or below numBlocks × blockSize. -/
+theorem ext4_file_write_in_range (bs numBlocks : Nat) (es : List Extent) (size off : Nat) (b : Bytes)
+    (hbs : 0 < bs) (hc : Contig 0 es) (hsz : size ≤ blockCount es * bs) (hfit : off + b.length ≤ blockCount es * bs)
+    (hbelow : ∀ e ∈ es, e.start + e.count ≤ numBlocks) :
+    ∃ r, writeE false true bs es size off b = .ok r ∧
+      ∀ w ∈ r.ws, InExtent bs es w ∧ 0 ≤ w.1 ∧ w.1 + (w.2.length : Int) ≤ ((numBlocks * bs : Nat) : Int) := by
+  obtain ⟨r, hr, hin⟩ := writeE_in_extents bs es size off b hbs hc hsz hfit
+  refine ⟨r, hr, fun w hw => ⟨hin w hw, ?_⟩⟩
+  obtain ⟨e, he, h1, h2⟩ := hin w hw
+  have := Nat.mul_le_mul_right bs (hbelow e he)
+  omega
+
+/-- finding ext4-backup-gdt-past-end: a group that carries a superblock copy and whose first block is the last
+    block of the volume has its descriptor-table copy written wholly behind the end of the volume -/
+theorem ext4_backup_gdt_outside (l : Layout) (flex : Bool) (g : Nat) (h : l.numBlocks ≤ groupStart l g + 1) :
+    l.numBlocks * l.bs ≤ (evRegion l flex (.gdt g)).off := by
+  simp only [evRegion]
+  exact Nat.mul_le_mul_right _ h
+
+/-! non-vacuity, and the two findings as the negations of the hypotheses -/
+
+/-- the default 16 MiB volume: accepted, `Fits`, `BackupsFit` -/
+def e4p16 : Params := ⟨16 * 1024 * 1024, 0, 0, 0, 0, 0, true, true, true⟩
+example : ∃ l, mkLayout e4p16 = .ok l ∧ Fits l e4p16.flex ∧ BackupsFit l := ⟨layoutOf e4p16, by rfl, by decide, by decide⟩
+
+/-- ext4-backup-gdt-past-end: 73730 blocks of 1 KiB — ten groups, group 9 (a backup group: 9 = 3²) has one
+    block.  Create accepts, `Fits` holds, `BackupsFit` does not, and the descriptor-table copy of group 9
+    starts exactly at the end of the volume (the real code writes 640 bytes there: `ranges.ext4` replay). -/
+def pGdt : Params := ⟨73730 * 1024, 0, 0, 0, 0, 0, true, true, true⟩
+example : mkLayout pGdt = .ok (layoutOf pGdt) ∧ Fits (layoutOf pGdt) true ∧ ¬ BackupsFit (layoutOf pGdt) ∧
+    (evRegion (layoutOf pGdt) true (.gdt 9)).off = pGdt.size ∧ hasSuper 9 = true := ⟨by rfl, by decide⟩
+
+/-- ext4-create-flex-meta-overflow: 64 MiB + 3 KiB without resize inode — 65539 blocks, group 8 has 2 blocks
+    and is the owner of its flex group: `Fits` is false and the inode table of group 8 ends beyond the volume -/
+def pFlex : Params := ⟨64 * 1024 * 1024 + 3 * 1024, 0, 0, 0, 0, 0, false, true, true⟩
+example : mkLayout pFlex = .ok (layoutOf pFlex) ∧ ¬ Fits (layoutOf pFlex) true ∧
+    pFlex.size < (evRegion (layoutOf pFlex) true (.itab 8)).off + (evRegion (layoutOf pFlex) true (.itab 8)).len :=
+  ⟨by rfl, by decide⟩
+
+set_option maxRecDepth 100000 in
+/-- one file on the fresh 16 MiB volume: allocateInode, two blocks from allocateExtents, a WriteAt over both,
+    the inode write-back, Remove — the machine accepts every step and emits these writes -/
+example : ((vrun (layoutOf e4p16) (freshOwn (layoutOf e4p16) true)
+      [.create false, .grow 0 2 [(0, 1000, 2)], .wblocks 0 1001 2 100 1500, .winode 0, .remove 0 false]).2.map
+        (fun ev => ((evRegion (layoutOf e4p16) true ev).off, (evRegion (layoutOf e4p16) true ev).len))).length = 21 := by
+  decide
 
 end Diskfs.Ranges.C03
